@@ -96,6 +96,10 @@ def configs(tier):
                 for mode in modes:
                     out.append(dict(entry='Gillespie_simple_contagion', spec=spec, graph=g, directed=directed, ic=ic, mode=mode, full=False,
                                     max_expo=E, truncate=True, wstub='abstract', tmax='inf', tags=[spec, g, mode]))
+                    if mode == 'plain' and g == 'P3':
+                        # return_statuses in another order than the one the model was written in: the columns follow the request
+                        out.append(dict(entry='Gillespie_simple_contagion', spec=spec, graph=g, directed=directed, ic=ic, mode=mode, full=False, return_order='reversed',
+                                        max_expo=E, truncate=True, wstub='abstract', tmax='inf', tags=[spec, g, mode, 'return-order']))
                     if mode == 'rate_function' and g in ('P3', 'K2', 'D:3:01,12'):
                         out.append(dict(entry='Gillespie_simple_contagion', spec=spec, graph=g, directed=directed, ic=ic, mode=mode, full=False, kwargs=True,
                                         max_expo=E, truncate=True, wstub='abstract', tmax='inf', tags=[spec, g, mode, 'kwargs']))
@@ -131,7 +135,7 @@ def build(cfg):
     r.N = r.G.order()
     r.nodes = list(r.G.nodes())
     statuses, spont, induced = SPECS[cfg['spec']]
-    r.statuses = statuses
+    r.statuses = list(reversed(statuses)) if cfg.get('return_order') == 'reversed' else statuses      # the order the columns are asked for
     rates = {}
     for (_, _, nm) in spont + induced:
         if nm not in rates:
